@@ -130,8 +130,18 @@ class C06Oracle(RaftOracle):
         applied = node.raftLastApplied
         dump_loaded = any(l[0] == host.idx for l in self.w.step_loads) or applied > 1
         lost = []
+        superseded_from = None
         for idx, term in sorted(p['owed'].items()):
+            if superseded_from is not None and idx >= superseded_from:
+                continue        # behind an entry that a newer leader's data replaced: that tail was never committed
             if base <= idx <= last:
+                if log[idx - base][2] > term:
+                    # the position now holds an entry of a NEWER term: the data of a later leader (a snapshot whose
+                    # installation the kill interrupted after the received file had replaced the dump, or entries it
+                    # sent before the first tick was over) replaced an acknowledged but uncommitted tail - what Raft does
+                    superseded_from = idx
+                    self.w.probe('acknowledged_tail_superseded_by_newer_term')
+                    continue
                 if log[idx - base][2] != term:
                     lost.append((idx, term, 'replaced by term %d' % log[idx - base][2]))
             elif idx <= applied and dump_loaded:
@@ -231,6 +241,9 @@ class C06Spec(c01.C01Spec):
         s['p_kill_voter'] = 0.0
         s['p_kill_in_compaction'] = rng.choice([0.0, 0.5, 1.0])
         s['p_kill_in_install'] = rng.choice([0.0, 0.5, 1.0])
+        s['p_kill_while_starting'] = rng.choice([0.0, 0.1, 0.3])
+        if rng.random() < 0.15:
+            cfg['armed_first_start'] = [rng.randrange(cfg['n_voters']), rng.choice([1, 1, 2, 3, 4]), rng.choice(['before', 'after', 'torn']), rng.choice([0.1, 0.5, 0.9])]
         s['max_down'] = rng.choice([1, 2, None, None])
         s['orphan_children'] = rng.random() < 0.5
         s['w_part'] = rng.choice([0.0, 0.004])
